@@ -18,6 +18,9 @@ Proof.
 Qed.
 
 (* ---------- counter exactness: TotalRead = pulled - Buffered is an invariant of every operation ---------- *)
+Lemma blen_nonneg_early (l : bytes) : 0 <= blen l.
+Proof. unfold blen. lia. Qed.
+
 Definition Inv (s : reader) : Prop :=
   1 <= rcap s /\ 0 <= rr s /\ rr s <= rw s /\ rw s <= rcap s /\
   rtotal s = rpulled s - (rw s - rr s) /\ rr s <= rtotal s /\ (0 <= rlast s -> rr s = rw s -> 1 <= rtotal s).
@@ -269,27 +272,60 @@ Ltac step_fin :=
       split; [eapply rd_read_inv; [eassumption| |eassumption]; lia|eexists; reflexivity]
   end.
 
-Lemma reader_step_inv op s o s' : Inv s -> reader_step op s = Some (o, s') ->
+Lemma src_drain_len : forall sc d e rest, src_drain sc = (d, e, rest) -> 0 <= blen d.
+Proof. intros. apply blen_nonneg_early. Qed.
+
+Lemma rd_writeto_wt_inv s d e s' : Inv s -> rd_writeto_wt s = (d, e, s') -> Inv s'.
+Proof.
+  intros HI. unfold rd_writeto_wt.
+  set (s0 := mkR (rbuf s) (rr s) (rw s) (rerr s) (-1) (rtotal s) (rsrc s) (rpulled s)).
+  assert (HI0 : Inv s0).
+  { unfold Inv, rcap, s0 in *. recsimpl. destruct HI as (Hc & Hr0 & Hrw & Hwc & Ht & Hrt & Hl). repeat split; lia. }
+  destruct (write_buf [] s0) as [out s1] eqn:E1.
+  pose proof (write_buf_inv _ _ _ _ HI0 E1) as HI1.
+  assert (Hl1 : rlast s1 = -1) by (unfold write_buf in E1; inversion E1; reflexivity).
+  destruct (src_drain (rsrc s1)) as [[d0 e0] rest] eqn:Ed.
+  intros E; inversion E; subst; clear E. pose proof (blen_nonneg_early d0).
+  unfold Inv, rcap in *. recsimpl. destruct HI1 as (Hc & Hr0 & Hrw & Hwc & Ht & Hrt & Hl).
+  destruct ((0 <? blen d0) && (rr s1 =? rw s1)) eqn:Ez; repeat split; lia.
+Qed.
+
+(* operations without the rune pair (ReadRune / UnreadRune are covered by the correspondence check only) *)
+Definition rune_free (op : val) : bool :=
+  match op with
+  | VL (VZ t :: _) => negb ((t =? 10) || (t =? 11))
+  | _ => true
+  end.
+
+Lemma reader_step_inv wt op s lrs o s' lrs' : Inv s -> rune_free op = true ->
+  reader_step wt op (s, lrs) = Some (o, (s', lrs')) ->
   Inv s' /\ exists ret, o = VL [VL ret; VZ (rtotal s'); VZ (rpulled s'); VZ (buffered s')].
 Proof.
-  intros HI. unfold reader_step.
+  intros HI. unfold reader_step, rune_free.
   destruct op as [z|b|l]; try discriminate.
   destruct l as [|[tag| |] l]; try discriminate.
   destruct tag as [|p|p]; try discriminate.
   repeat (destruct p as [p|p|]; try discriminate).
+  all: intros Hrf; try (vm_compute in Hrf; discriminate Hrf).
   all: destruct l as [|[n| |] [|? ?]]; try discriminate.
+  all: try (destruct wt;
+            [destruct (rd_writeto_wt s) as [[? ?] ?] eqn:E; intros H; inversion H; subst;
+             split; [eapply rd_writeto_wt_inv; eassumption|eexists; reflexivity]|]).
+  all: try (destruct (rd_slice 10 s) as [[line0 ?] ?] eqn:E0).
   all: step_fin.
 Qed.
 
-Theorem reader_run_counts : forall ops s obs, Inv s -> reader_run ops s = Some obs ->
+Theorem reader_run_counts : forall wt ops s lrs obs, Inv s -> forallb rune_free ops = true ->
+  reader_run wt ops (s, lrs) = Some obs ->
   Forall (fun o => exists ret t p b, o = VL [VL ret; VZ t; VZ p; VZ b] /\ t = p - b /\ 0 <= b) obs.
 Proof.
-  induction ops as [|op ops IH]; intros s obs HI; cbn [reader_run].
+  induction ops as [|op ops IH]; intros s lrs obs HI Hrf; cbn [reader_run].
   - intros E; inversion E; subst. constructor.
-  - destruct (reader_step op s) as [[o s1]|] eqn:Es; [|discriminate].
-    destruct (reader_step_inv op s o s1 HI Es) as [HI1 [ret Ho]].
-    destruct (reader_run ops s1) as [os|] eqn:Er; [|discriminate].
-    intros E; inversion E; subst. constructor; [|apply (IH s1 os HI1 Er)].
+  - cbn [forallb] in Hrf. apply andb_true_iff in Hrf. destruct Hrf as [Hr1 Hr2].
+    destruct (reader_step wt op (s, lrs)) as [[o [s1 l1]]|] eqn:Es; [|discriminate].
+    destruct (reader_step_inv wt op s lrs o s1 l1 HI Hr1 Es) as [HI1 [ret Ho]].
+    destruct (reader_run wt ops (s1, l1)) as [os|] eqn:Er; [|discriminate].
+    intros E; inversion E; subst. constructor; [|apply (IH s1 l1 os HI1 Hr2 Er)].
     exists ret, (rtotal s1), (rpulled s1), (buffered s1). split; [reflexivity|].
     unfold Inv, buffered in *. lia.
 Qed.
@@ -444,7 +480,40 @@ Proof.
     + intros E; inversion E; subst. unfold WInv, WInvN, w_add_total in *. wsimpl. lia.
 Qed.
 
-Lemma writer_step_inv op s o s' : WInv s -> writer_step op s = Some (o, s') ->
+Lemma encode_rune_len r : 1 <= blen (encode_rune r) <= 4.
+Proof.
+  unfold encode_rune.
+  repeat match goal with |- context [if ?c then _ else _] => destruct c end; unfold blen; simpl; lia.
+Qed.
+
+Lemma w_write_rune_inv r s n e s' : WInv s -> w_write_rune r s = (n, e, s') -> WInv s'.
+Proof.
+  unfold w_write_rune. intros HI. destruct (r <? 128).
+  - destruct (w_write_byte (r mod 256) s) as [e1 s1] eqn:E1. pose proof (w_write_byte_inv _ _ _ _ HI E1) as H1.
+    destruct (negb (e1 =? 0)); intros E; inversion E; subst; exact H1.
+  - destruct (negb (werr s =? 0)); [intros E; inversion E; subst; exact HI|].
+    pose proof (encode_rune_len r) as Hlen.
+    assert (Happ : forall s1, WInv s1 -> 4 <= avail s1 ->
+              WInv (w_add_total (w_set s1 (wbuf s1 ++ encode_rune r) (werr s1)) (blen (encode_rune r)))).
+    { intros s1 H1 Hav. unfold WInv, WInvN, w_add_total, w_set, avail in *. wsimpl. rewrite blen_app. lia. }
+    destruct (avail s <? 4) eqn:Ea.
+    + destruct (w_flush s) as [fe s1] eqn:Ef. destruct (w_flush_inv _ _ _ _ HI Ef) as (HI1 & _).
+      destruct (negb (werr s1 =? 0)); [intros E; inversion E; subst; exact HI1|].
+      destruct (avail s1 <? 4) eqn:Ea1.
+      * intros E. apply (w_write_gen_inv false _ _ _ _ _ HI1 E).
+      * intros E; inversion E; subst. apply Happ; [exact HI1|lia].
+    + intros E; inversion E; subst. apply Happ; [exact HI|lia].
+Qed.
+
+Lemma w_readfrom_rf_inv src s n e s' : WInv s -> w_readfrom_rf src s = (n, e, s') -> WInv s'.
+Proof.
+  unfold w_readfrom_rf. intros HI. destruct (wbuf s) as [|x b] eqn:Eb.
+  - destruct (src_drain src) as [[d e0] rest]. intros E; inversion E; subst; clear E.
+    unfold WInv, WInvN in *. wsimpl. rewrite Eb in *. rewrite blen_app. change (blen []) with 0 in *. lia.
+  - apply w_readfrom_inv. exact HI.
+Qed.
+
+Lemma writer_step_inv rf op s o s' : WInv s -> writer_step rf op s = Some (o, s') ->
   WInv s' /\ exists ret, o = VL [VL ret; VZ (wtotal s'); VZ (blen (wout s')); VZ (blen (wbuf s'))].
 Proof.
   intros HI. unfold writer_step.
@@ -456,8 +525,14 @@ Proof.
   all: try (destruct x as [c|d|src]; try discriminate).
   all: try (destruct (dec_script (VL src)) as [sc|]; [|discriminate]).
   all: match goal with
-  | |- context [w_readfrom ?sc ?s] => destruct (w_readfrom sc s) as [[? ?] ?] eqn:E; intros H; inversion H; subst;
-      split; [eapply w_readfrom_inv; eassumption|eexists; reflexivity]
+  | |- context [w_write_rune ?c ?s] => destruct (w_write_rune c s) as [[? ?] ?] eqn:E; intros H; inversion H; subst;
+      split; [eapply w_write_rune_inv; eassumption|eexists; reflexivity]
+  | |- context [w_readfrom_rf ?sc ?s] =>
+      destruct rf;
+      [destruct (w_readfrom_rf sc s) as [[? ?] ?] eqn:E; intros H; inversion H; subst;
+       split; [eapply w_readfrom_rf_inv; eassumption|eexists; reflexivity]
+      |destruct (w_readfrom sc s) as [[? ?] ?] eqn:E; intros H; inversion H; subst;
+       split; [eapply w_readfrom_inv; eassumption|eexists; reflexivity]]
   | |- context [w_flush ?s] => destruct (w_flush s) as [? ?] eqn:E; intros H; inversion H; subst;
       split; [eapply w_flush_inv; eassumption|eexists; reflexivity]
   | |- context [w_write_byte ?c ?s] => destruct (w_write_byte c s) as [? ?] eqn:E; intros H; inversion H; subst;
@@ -469,14 +544,14 @@ Proof.
   end.
 Qed.
 
-Theorem writer_run_counts : forall ops s obs, WInv s -> writer_run ops s = Some obs ->
+Theorem writer_run_counts : forall rf ops s obs, WInv s -> writer_run rf ops s = Some obs ->
   Forall (fun o => (exists ret t k b, o = VL [VL ret; VZ t; VZ k; VZ b] /\ t = k + b) \/ exists out, o = VB out) obs.
 Proof.
   induction ops as [|op ops IH]; intros s obs HI; cbn [writer_run].
   - intros E; inversion E; subst. constructor; [right; eexists; reflexivity|constructor].
-  - destruct (writer_step op s) as [[o s1]|] eqn:Es; [|discriminate].
-    destruct (writer_step_inv op s o s1 HI Es) as [HI1 [ret Ho]].
-    destruct (writer_run ops s1) as [os|] eqn:Er; [|discriminate].
+  - destruct (writer_step rf op s) as [[o s1]|] eqn:Es; [|discriminate].
+    destruct (writer_step_inv rf op s o s1 HI Es) as [HI1 [ret Ho]].
+    destruct (writer_run rf ops s1) as [os|] eqn:Er; [|discriminate].
     intros E; inversion E; subst. constructor; [|apply (IH s1 os HI1 Er)].
     left. exists ret, (wtotal s1), (blen (wout s1)), (blen (wbuf s1)). split; [reflexivity|].
     unfold WInv, WInvN in HI1. lia.
@@ -485,10 +560,11 @@ Qed.
 Lemma new_writer_inv size sink : WInv (new_writer size sink).
 Proof. unfold WInv, WInvN, new_writer. wsimpl. change (blen []) with 0. destruct (size <=? 0) eqn:E; lia. Qed.
 
-Theorem totalread_exact size src ops obs : reader_run ops (new_reader size src) = Some obs ->
+Theorem totalread_exact wt size src ops obs : forallb rune_free ops = true ->
+  reader_run wt ops (new_reader size src, -1) = Some obs ->
   Forall (fun o => exists ret t p b, o = VL [VL ret; VZ t; VZ p; VZ b] /\ t = p - b /\ 0 <= b) obs.
-Proof. apply reader_run_counts. apply new_reader_inv. Qed.
-Theorem totalwrite_exact size sink ops obs : writer_run ops (new_writer size sink) = Some obs ->
+Proof. intros Hrf. apply reader_run_counts; [apply new_reader_inv|exact Hrf]. Qed.
+Theorem totalwrite_exact rf size sink ops obs : writer_run rf ops (new_writer size sink) = Some obs ->
   Forall (fun o => (exists ret t k b, o = VL [VL ret; VZ t; VZ k; VZ b] /\ t = k + b) \/ exists out, o = VB out) obs.
 Proof. apply writer_run_counts. apply new_writer_inv. Qed.
 
